@@ -321,9 +321,66 @@ pub mod handlers {
         pub uninterp spec fn modified(s: Subscription, mods: Seq<DeadlineModification>) -> bool;
     }
     pub use glue::{parsed_name, lookup, acked, modified};
+    // ---- ListTopicSubscriptions: stand-ins for the topic side (A-STUB / A-GLUE)
+    pub struct TopicName { pub x: u64 }
+    pub struct Topic { pub x: u64 }
+    pub struct PublisherService { pub x: u64 }
+    pub struct ListTopicSubscriptionsRequest { pub topic: String, pub page_size: i32, pub page_token: String }
+    pub struct ListTopicSubscriptionsResponse { pub subscriptions: Vec<String>, pub next_page_token: String }
+    pub struct NamedSubscription { pub name: SubscriptionName }
+    pub mod list_glue {
+        use super::*;
+        pub uninterp spec fn parsed_topic(s: Seq<char>) -> Option<TopicName>;
+        pub uninterp spec fn topic_lookup(s: PublisherService, name: TopicName) -> Option<Arc<Topic>>;
+        /// `Topic::list_subscriptions(paging)` answered with this page (TopicActor::list_subscriptions, bundle B4)
+        pub uninterp spec fn listed(t: Topic, size: int, off: Option<usize>, names: Seq<Seq<char>>, next: Option<usize>) -> bool;
+        pub uninterp spec fn display_sub(n: SubscriptionName) -> Seq<char>;
+    }
+    pub use list_glue::{parsed_topic, topic_lookup, listed, display_sub};
+    impl SubscriptionName {
+        #[verifier::external_body]
+        pub fn to_string(&self) -> (r: String) ensures r@ == display_sub(*self) { unimplemented!() }
+    }
+    pub struct SubscriptionsPage { pub subscriptions: Vec<Arc<NamedSubscription>>, pub offset: Option<usize> }
+    /// the names on a page, as text
+    pub open spec fn page_names(p: SubscriptionsPage) -> Seq<Seq<char>> { Seq::new(p.subscriptions@.len(), |i: int| display_sub(p.subscriptions@[i].name)) }
+    impl Topic {
+        #[verifier::external_body]
+        pub async fn list_subscriptions(&self, paging: Paging) -> (r: Result<SubscriptionsPage, ListSubscriptionsError>)
+            ensures (match r { Ok(p) => listed(*self, paging.sz(), paging.off(), page_names(p), p.offset), Err(_) => true })
+        { unimplemented!() }
+    }
+    impl PublisherService {
+        // assumed here, proved in bundle B6
+        #[verifier::external_body]
+        pub async fn get_topic_internal(&self, topic_name: &TopicName) -> (r: Result<Arc<Topic>, Status>)
+            ensures (match topic_lookup(*self, *topic_name) { Some(t) => r == Ok::<Arc<Topic>, Status>(t), None => err_code(r) == Some(Code::NotFound) || err_code(r) == Some(Code::Internal) })
+        { unimplemented!() }
+//@fn src/api/publisher.rs PublisherService::list_topic_subscriptions tags=C13
+//@ ret r
+//@ # C13 / C17: a negative page size or an undecodable token is INVALID_ARGUMENT, as is a name that does not parse
+//@ ensures[C13,C17] request.m.page_size < 0 || parsed_topic(request.m.topic@).is_none() ==> err_code(r) == Some(Code::InvalidArgument)
+//@ # C13: the response is the page the topic answered for the effective size and the token's offset: its names in
+//@ # order, and a next_page_token exactly when the topic reported a further offset (the token of that offset)
+//@ ensures[C13] (match r { Ok(resp) => exists|t: Arc<Topic>, off: Option<usize>, next: Option<usize>, names: Seq<Seq<char>>| #![trigger listed(*t, norm_size(request.m.page_size as int), off, names, next)] listed(*t, norm_size(request.m.page_size as int), off, names, next) && names.len() == resp.m.subscriptions@.len() && (forall|i: int| #![trigger names[i]] 0 <= i < names.len() ==> resp.m.subscriptions@[i]@ == names[i]) && (request.m.page_token@.len() == 0 ==> off.is_none()) && (forall|v: usize| request.m.page_token@ == tok(v) ==> off == Some(v)) && (match next { Some(o) => resp.m.next_page_token@ == tok(o), None => resp.m.next_page_token@.len() == 0 }), Err(_) => true })
+//@ closure 1 ret st: Status
+//@ closure 1 ensures st.code == Code::FailedPrecondition
+//@ closure 2 ret txt: String
+//@ closure 2 ensures txt@ == display_sub($1.name)
+//@ closure 3 ret txt: String
+//@ closure 3 ensures txt@ == tok($1)
+//@end
+    }
+    /// the texts of a vector of strings
+    pub open spec fn strs(v: Seq<String>) -> Seq<Seq<char>> { Seq::new(v.len(), |i: int| v[i]@) }
+//@item src/subscriptions/errors.rs enum ListSubscriptionsError drop-derive=thiserror::Error strip-attr=error
     pub mod parser {
         use super::*;
-        pub(crate) use super::super::{parse_ack_id, parse_deadline_modifications};
+        pub(crate) use super::super::{parse_ack_id, parse_deadline_modifications, parse_paging};
+        #[verifier::external_body]
+        pub fn parse_topic_name(raw_value: &str) -> (r: Result<TopicName, Status>)
+            ensures (match parsed_topic(raw_value@) { Some(n) => r == Ok::<TopicName, Status>(n), None => err_code(r) == Some(Code::InvalidArgument) })
+        { unimplemented!() }
         // assumed here, proved in bundle B3: INVALID_ARGUMENT exactly when the name does not parse
         #[verifier::external_body]
         pub fn parse_subscription_name(raw_value: &str) -> (r: Result<SubscriptionName, Status>)
